@@ -68,6 +68,9 @@ WINDOW_PROGRAMS = [
     ("count", "stream S = A\n    .partition_by(k)\n    .window(3)\n    .aggregate(n: count(), s: sum(x))\n    .emit(n: n, s: s)\n"),
     ("sliding_count", "stream S = A\n    .partition_by(k)\n    .window(3, sliding: 1)\n    .aggregate(n: count(), s: sum(x))\n    .emit(n: n, s: s)\n"),
     ("sliding", "stream S = A\n    .partition_by(k)\n    .window(4s, sliding: 2s)\n    .aggregate(n: count(), s: sum(x))\n    .emit(n: n, s: s)\n"),
+    # hopping form (slide longer than the window): a key that goes quiet for longer than the window and returns before its slide
+    # boundary must not be affected by the other keys' events in between (seed C04-partitioned-sliding-expires-other-partitions)
+    ("sliding_hop", "stream S = A\n    .partition_by(k)\n    .window(2s, sliding: 5s)\n    .aggregate(n: count(), s: sum(x))\n    .emit(n: n, s: s)\n"),
     ("session", "stream S = A\n    .partition_by(k)\n    .window(session: 3s)\n    .aggregate(n: count(), s: sum(x))\n    .emit(n: n, s: s)\n"),
     ("aggregate", "stream S = A\n    .partition_by(k)\n    .aggregate(n: count(), s: sum(x))\n    .emit(n: n, s: s)\n"),
 ]
